@@ -2,7 +2,8 @@
 """regress_seeds.py [jobs]  - every stored seeded change (/verif/seeded/*/patch.diff) is applied to its own SCRATCH worktree of /repo and the check of its own property is
 run against it (PANQEC_REPO=<scratch>); expected: exit 1.  Every stored behaviour-preserving refactoring (/verif/refactors/*/patch.diff) and property-preserving change of behaviour (/verif/preserving/*/patch.diff) likewise with the checks recorded
 in its meta.json; expected: exit 0.  /repo and /verif/evidence are not touched.  Prints one line per item and a summary; exit 1 if anything deviates."""
-import glob, json, os, subprocess, sys, tempfile
+import glob, json, os, subprocess, sys, tempfile, threading
+_GIT = threading.Lock()          # concurrent `git worktree add/remove` on one repository race on .git/worktrees
 from concurrent.futures import ThreadPoolExecutor
 jobs = int(sys.argv[1]) if len(sys.argv) > 1 else 3
 
@@ -15,7 +16,8 @@ def run(item):
     else:
         props = sorted(p for p in (meta.get('evaluation', {}).get('checks') or {}) if len(p) == 3)
     wt = tempfile.mkdtemp(prefix='regwt_'); os.rmdir(wt)
-    subprocess.check_call(['git', '-C', '/repo', 'worktree', 'add', '-q', '--detach', wt, 'HEAD'])
+    with _GIT:
+        subprocess.check_call(['git', '-C', '/repo', 'worktree', 'add', '-q', '--detach', wt, 'HEAD'])
     out = []
     try:
         subprocess.check_call(['git', '-C', wt, 'apply', os.path.join(d, 'patch.diff')])
@@ -25,7 +27,8 @@ def run(item):
             summ = [l for l in r.stdout.splitlines() if l.startswith(p + ' tier=')]
             out.append((p, r.returncode, summ[0][summ[0].index('obligations='):][:90] if summ else r.stderr[-200:]))
     finally:
-        subprocess.call(['git', '-C', '/repo', 'worktree', 'remove', '--force', wt])
+        with _GIT:
+            subprocess.call(['git', '-C', '/repo', 'worktree', 'remove', '--force', wt])
     return kind, os.path.basename(d), out
 
 
